@@ -18,8 +18,12 @@ MANIFEST = dict(
          "breaks the obligation); for every method and argument vector of region WF the single request carries the directive's verb, the path with "
          "every placeholder replaced by its alias-resolved argument, the query holding exactly the non-path scalars, struct fields and map entries "
          "under alias-or-name with nil pointers omitted, the struct argument as body for POST/PUT/PATCH, and the caller's context (C06_request, "
-         "C06_query, C06_placeholders — for arbitrary argument texts —, C06_body, C06_ctx, C06_one_request); duplicate aliases are rejected "
-         "(C06_dup_alias_rejected); when the chain retries, every attempt is that request under the caller's context (C06_attempt, C06_attempt_identity). "
+         "C06_query, C06_placeholders — for arbitrary argument texts —, C06_body, C06_ctx, C06_one_request); the same from the TEXT of the doc comments "
+         "(C06_request_text: for every WF interface whose comments spell the directives in the documented form — any verb spelling, quoted or not, `;` tails, "
+         "alias line, multi-line headers — the generator reading only the text yields a compiling client whose calls send that request; C06_cook_text, "
+         "C06_headers_text); the interface-level glue of cookClient in closed form for EVERY interface (C06_generate_closed: a Fatal ends the run, otherwise one "
+         "generated method per method whose directive is read, in order; C06_method_one_plan; C06_cooked_total: cooking never fails inside the region); "
+         "duplicate aliases are rejected (C06_dup_alias_rejected); when the chain retries, every attempt is that request under the caller's context (C06_attempt, C06_attempt_identity). "
          "Two finding regions with witness theorems (both pinned by the rest golden); eight former ones (the last: F_retryBody, 371dec3) were repaired "
          "in /repo and are stated as *_fixed / asserted as WF. Tied to the code (a) by generating clients with the rebuilt `shoot rest` from random interfaces, compiling "
          "them and recording the requests they send through a recording RoundTripper (nil pointers, URL-unsafe strings; url.JoinPath / "
@@ -27,8 +31,8 @@ MANIFEST = dict(
          "RetryMiddleware(2, 0) whose base answers 503 / a transport error first: every attempt's verb, URL, query, headers, body, Content-Length and "
          "context (tag, and Done once the caller cancelled between two attempts) is observed —, (b) by an in-process differential of the recognisers against "
          "the real regexps (verif hook internal/restclient/verif_export.go) on thousands of random and rendered texts.",
-    note="Lean kernel + standard axioms. Proved at method level (directives parsed to their meaning -> request); the interface-level glue "
-         "(method collection, compile failures) is tied by the correspondence. Known findings: F_ptrDict, F_nilStructDeref (repairs would change "
+    note="Lean kernel + standard axioms. Proved from the doc text to the request (C06_request_text); what go/ast hands to cookClient (doc texts, "
+         "flattened parameter lists, struct field lists) is an input of the model, tied by the correspondence. Known findings: F_ptrDict, F_nilStructDeref (repairs would change "
          "the committed golden: notes/proposed/REST_REPAIRS.md). Repaired in /repo and asserted as WF / Rejected: F_mixedCtx, F_bodyNoStruct, duplicate "
          "aliases, F_twoDicts, F_qualScalar, F_structElsewhere, F_headerValue, F_pathArgBrace, F_retryBody.",
     technique="Lean 4 proof (induction over parameter lists, token lists, Go-map association lists, directive texts) + differential model/implementation "
